@@ -127,7 +127,8 @@ def make_case(rng, n_ids=None, id_type=None, pop=None, interleave=None, mapped=N
             ids.append(float(r))
         else:
             ids.append(int(r) if k % 2 == 0 else 'P%d' % r)
-    mapped = mapped if mapped is not None else ['both', 'o0 only', 'renamed'][int(rng.integers(0, 3))]
+    # 'shared': both outputs are mapped to the same observable (two model descriptions of the one measured quantity); the other observable's rows are unrelated
+    mapped = mapped if mapped is not None else ['both', 'o0 only', 'renamed', 'both', 'renamed', 'shared'][int(rng.integers(0, 6))]
     tag = itertools.count(1)
     gt = {'ids': ids, 'pop': pop, 'mapped': mapped, 'id_type': id_type, 'interleave': bool(rng.integers(0, 2)) if interleave is None else interleave,
           'junk': bool(rng.integers(0, 2)) if with_junk is None else with_junk, 'keys': bool(rng.integers(0, 2)) if keys is None else keys,
@@ -307,7 +308,7 @@ def spec_individual(gt, i, psi, outputs_used):
     total = 0.0
     for k, o in enumerate(outputs_used):
         sigma = psi[2 + k]
-        for (t, y) in ind['meas'][o]:
+        for (t, y) in ind['meas'][0 if gt['mapped'] == 'shared' else o]:
             total += norm_logpdf(y, spec_output(o, psi[0], psi[1], t, doses), sigma)
     return total
 
@@ -326,6 +327,8 @@ def run_case(real, gt, rng, mech='toy'):
     pop, blocks = build_population(real, gt, n_dim)
     kw = dict(id_key=K['id'], time_key=K['time'], obs_key=K['obs'], value_key=K['val'], dose_key=K['dose'], dose_duration_key=K['dur'])
     oo = {('o%d' % o): names[o] for o in outputs_used} if (gt['mapped'] == 'renamed' or len(set(df[K['obs']].dropna().unique())) > len(outputs_used)) else None
+    if gt['mapped'] == 'shared':
+        oo = {'o0': names[0], 'o1': names[0]}
     if oo is not None and len(gt['ids']) % 2 == 0:
         oo = dict(reversed(list(oo.items())))          # the mapping may be written in any order
     if gt['mapped'] == 'o0 only' and len(gt['ids']) % 2 == 1:
@@ -447,6 +450,7 @@ def shapes(rec, part, parts):
     for k, (n_ids, id_type, pop, inter) in enumerate(levels):
         cases.append(dict(n_ids=n_ids, id_type=id_type, pop=pop, interleave=inter, mapped=['both', 'o0 only', 'renamed'][k % 3], with_junk=bool(k % 2), keys=bool((k // 2) % 2), missing=bool((k // 3) % 2)))
     n_rand = 150 if rec.tier == 'quick' else 1500
+    cases += [dict(n_ids=n_ids, pop=pop, mapped='shared') for n_ids in (1, 2, 3) for pop in ('none', 'gauss+pooled')]
     cases += [None] * n_rand
     cases = list(enumerate(cases))[part::parts]
 
